@@ -332,6 +332,24 @@ theorem C17_http_status_range (c : Code) :
 theorem C17_websocket_error_code_valid (e : WsErr) : validCloseCode (websocketError e).1 = true := by
   cases e <;> rfl
 
+/-- `truncateCloseReason`: `reason[cut]` and `reason[:cut]` are in bounds, the result fits a close frame
+    (≤ 123 bytes next to the 2-byte code) and is a prefix of the reason.  (That the cut falls on a character
+    boundary is `utf8.RuneStart`'s contract; the differential op and the fuzz check the result is valid UTF-8.) -/
+theorem C17_close_reason_fits (reason : Bytes) :
+    ∃ r, truncateCloseReason reason = .ok r ∧ r.length ≤ 123 ∧ r <+: reason := by
+  unfold truncateCloseReason maxCloseReasonLen
+  split
+  · rename_i h; exact ⟨reason, rfl, h, List.prefix_refl _⟩
+  · rename_i h
+    obtain ⟨cut, hcut, hle⟩ := backToRuneStart_ok reason 123 (by omega)
+    rw [hcut]
+    simp only [bind, Except.bind, goSliceTo, goSlice]
+    have hc : (0 : Int) ≤ 0 ∧ (0 : Int) ≤ (cut : Int) ∧ (cut : Int) ≤ reason.length := by omega
+    rw [if_pos hc]
+    refine ⟨_, rfl, ?_, ?_⟩
+    · simp; omega
+    · simp; exact List.take_prefix _ _
+
 /-! ### what an accepted case means (the judgement is the property) -/
 
 /-- An in-process case the driver accepts is not a panic, not a hang, and — unless net/http itself refused
@@ -498,6 +516,8 @@ example : gwsOnMessage false [0, 0, 0, 0, 0, 0] = .ok { closed := false, deliver
 example : routeSlices [47, 97, 47, 98, 58, 118] [118] = .ok (.comps [[97], [98]] [118]) := by decide
 example : routeSlices [47, 97, 47, 58, 118] [118] = .ok .notFound := by decide
 example : routeSlices [97] [118] = .ok .invalid := by decide
+-- "€€" cut after 4 bytes would split the second character: the cut moves back to its start
+example : backToRuneStart [226, 130, 172, 226, 130, 172] 4 = .ok 3 := by decide
 example : recvHTTPStatus false .bodyUnmarshal = some 400 := by decide
 example : recvHTTPStatus true .bodyPath = some 500 := by decide
 example : traverseFieldPath (fun _ _ => some (.message 0)) 0 [97, 46, 98, 46] = .ok (.field 0 [98]) := by decide
